@@ -38,7 +38,20 @@ bool prop(Tape &t, Report &R) {
     R.discard("no movable cell");
     return true;
   }
-  return judge(s, params, R, true);
+  if (!judge(s, params, R, true)) return false;
+  // occasionally also a large companion instance (size-dependent code paths);
+  // decided at the very end of the tape so that older tapes keep their meaning
+  uint32_t tail = t.next();
+  if (tail % 24 == 1) {
+    CircuitSpec big = genLargeCircuit(tail, o);
+    if (big.nbMovable() > 0) {
+      for (auto &l : big.labels)
+        if (l.rfind("size:", 0) == 0) R.classify(l);
+      R.classify(big.nbMovable() >= 100 ? "large:100+cells" : "large:<100cells");
+      if (!judge(big, params, R, true)) return false;
+    }
+  }
+  return true;
 }
 
 namespace {
